@@ -11,6 +11,7 @@
 #pragma once
 
 #include <pika/config.hpp>
+#include <pika/config/verif_hooks.hpp>
 #include <pika/functional/detail/invoke.hpp>
 #include <pika/synchronization/event.hpp>
 
@@ -63,6 +64,7 @@ namespace pika {
 
                     // set status to done, release waiting threads
                     flag.status_.store(function_complete_flag_value);
+                    PIKA_VERIF_POINT(::pika::verif::once_after_status_done, &flag);
                     flag.event_.set();
                     break;
                 }
@@ -70,6 +72,7 @@ namespace pika {
                 {
                     // reset status to initial, release waiting threads
                     flag.status_.store(0);
+                    PIKA_VERIF_POINT(::pika::verif::once_after_status_reset, &flag);
                     flag.event_.set();
 
                     throw;
